@@ -508,3 +508,93 @@ def sock_connect_bound(u: U):
         if isinstance(out.exc, _CErr):
             u.check("C18.connect.timeout_not_wrapped", not isinstance(out.exc.os_error, asyncio.TimeoutError),
                     "a timeout is reported as a timeout error, not as a generic connector error")
+
+
+# ---------------------------------------------------------------------------------------------------------------
+# sock_read while awaiting headers across interim responses
+
+RRM = "aiohttp.client_reqrep"
+FN_START = "client_reqrep:ClientResponse.start"
+
+
+@unit("C18", "sock_read.interim_response", functions=[f"{RRM}:ClientResponse.start"])
+def sock_read_interim_response(u: U):
+    """ClientResponse.start: every wait for a response head is under the sock_read timer.  The protocol drops the timer
+    with each message that has no body (an interim 1xx response included); when start() goes back to wait for the next
+    message and nobody is sending a request body (whose writer arms the timer itself when it is done), start() re-arms it.
+    The loop over interim responses is cut: one arbitrary iteration."""
+    log = []
+    writer_active = u.bool("request_body_still_being_sent")
+    code = u.int("status", 100, 599)
+
+    class _Msg:
+        version = "1.1"
+        reason = "X"
+        headers = type("H", (), {"_md": type("MD", (), {"getall": staticmethod(lambda k, d=(): ())})()})()
+        raw_headers = ()
+        upgrade = False
+
+    _Msg.code = code
+
+    class _Payload:
+        def on_eof(self, cb):
+            log.append(("on_eof",))
+
+    class _Proto:
+        def read(self):
+            log.append(("read",))
+            return SAwait(result=(_Msg(), _Payload()), name="protocol.read", raises=(Boom,))
+
+        def start_timeout(self):
+            log.append(("start_timeout",))
+
+    class _Conn:
+        protocol = _Proto()
+
+    class _Timer:
+        def __enter__(self):
+            return self
+
+        def __exit__(self, *a):
+            return False
+
+    cont = u.choose(2, "waiting_for_100_continue") == 1
+    cont_fut = object() if cont else None
+    r = u.obj("ClientResponse", {"_closed": True, "_protocol": None, "_connection": None, "_timer": _Timer(),
+                                 "_continue": cont_fut, "_ClientResponse__writer": ("TASK" if True else None), "_traces": [],
+                                 "_raw_cookie_headers": None},
+              {"prop.headers": lambda self: _Msg.headers}, shared=False, real=(RRM, "ClientResponse"))
+    # the writer task: present (truthy) or gone
+    wflag = {"v": None}
+
+    def set_result(fut, v):
+        log.append(("continue_released",))
+
+    f = u.load(RRM, "ClientResponse.start", globals={"set_result": set_result, "EMPTY_PAYLOAD": "EMPTY"})
+    fs = fields(r)
+    if not u.branch(writer_active, "writer_active"):
+        fs["_ClientResponse__writer"] = None
+    head = {}
+
+    def at_head(L):
+        head["n"] = len(log)
+
+    def at_back(L):
+        # one more turn of the loop = the message just read was an interim one
+        new = [e[0] for e in log[head.get("n", 0):]]
+        interim = And(code >= 100, code <= 199, code != 101)
+        u.check("C18.sockread.loop_only_for_interim", interim, "start() goes on waiting only after an interim (1xx, not 101) response")
+        armed = "start_timeout" in new
+        u.check("C18.sockread.interim_response_rearms", Or(writer_active, armed),
+                "after an interim response, with no request body being sent, the sock_read timer is armed again before the "
+                "next wait: a peer that stalls after '102 Processing' is timed out",
+                known=[("F18a", True)], witness={"status": code})
+        u.check("C18.sockread.no_timer_while_sending", Implies(writer_active, not armed),
+                "while the request body is still being sent (e.g. after '100 Continue') start() does not arm the read "
+                "timer: it would fire during a long upload although nothing is awaited; the writer arms it when done")
+
+    u.loop(FN_START, 0, inv=lambda L: [("t", True)], havoc=lambda L: None, at_head=at_head, at_back=at_back)
+    out = u.call(f, r, _Conn())
+    if out.ok:
+        u.check("C18.sockread.final_response_only", Not(And(code >= 100, code <= 199, code != 101)),
+                "start() returns only with a final response (or 101)")
